@@ -1,6 +1,8 @@
 package strings
 
 import (
+	"fmt"
+	"math"
 	"strings"
 )
 
@@ -32,8 +34,15 @@ func compare(a, b string) int {
 }
 
 //risor:export
-func repeat(s string, count int) string {
-	return strings.Repeat(s, count)
+func repeat(s string, count int) (string, error) {
+	// strings.Repeat panics on these
+	if count < 0 {
+		return "", fmt.Errorf("value error: strings.repeat count must not be negative (%d given)", count)
+	}
+	if len(s) > 0 && count > math.MaxInt/len(s) {
+		return "", fmt.Errorf("value error: strings.repeat result is too large")
+	}
+	return strings.Repeat(s, count), nil
 }
 
 //risor:export
